@@ -53,7 +53,7 @@ class IR:
         return self.types[tid]['str']
 
     def fields(self, tid):
-        return self.under(tid)[1]['fields']
+        return self.under(tid)[1]['fields'] or []
 
     def field_index(self, tid, name):
         for i, f in enumerate(self.fields(tid)):
